@@ -26,11 +26,16 @@ Section World.
 
   (** An abstract feature.  [ft_paint q p t blk] receives the current block of request [p]
       (length [width p]) and the tape position, and returns the new block and tape position. *)
+  (** the temperature of the whole world at the query point, for the models that call back
+      world->properties(position, depth, {temperature}); delayed, so that only they pay for it *)
+  Definition wtemp := unit -> res F.
+  Definition no_wtemp : wtemp := fun _ => Err Throw.
+
   Record feature := {
     ft_covers : query -> bool;
-    ft_cov_err : query -> bool;                 (* the extent test throws here *)
-    ft_paint_err : query -> prop_req -> bool;   (* painting request p throws here *)
-    ft_paint : query -> prop_req -> nat -> list F -> list F * nat;
+    ft_cov_err : query -> bool;                          (* the extent test throws here *)
+    ft_paint_err : query -> wtemp -> prop_req -> bool;   (* painting request p throws here *)
+    ft_paint : query -> wtemp -> prop_req -> nat -> list F -> list F * nat;
     ft_tag : F
   }.
 
@@ -106,29 +111,38 @@ Section World.
     end.
 
   (** ** one feature (the common shape of every Feature::properties) *)
-  Definition paint_slot (f : feature) (q : query) (st : list F * nat) (pe : prop_req * nat)
+  Definition paint_slot (f : feature) (q : query) (wt : wtemp) (st : list F * nat) (pe : prop_req * nat)
     : list F * nat :=
     let '(out, t) := st in
     let '(p, off) := pe in
-    let '(b, t') := ft_paint f q p t (slice off (width p) out) in
+    let '(b, t') := ft_paint f q wt p t (slice off (width p) out) in
     (blit off b out, t').
 
-  Definition feature_apply (q : query) (regs : list (prop_req * nat))
+  Definition feature_apply (q : query) (wt : wtemp) (regs : list (prop_req * nat))
              (st : list F * nat) (f : feature) : list F * nat :=
-    if ft_covers f q then fold_left (paint_slot f q) regs st else st.
+    if ft_covers f q then fold_left (paint_slot f q wt) regs st else st.
 
   Definition mk_query (w : world) (pos : vec3) (depth : F) : query :=
     {| q_pos := pos; q_nat := cartesian_to_natural (w_cs w) pos; q_depth := depth; q_g := w_gravity w |}.
 
   (** ** World::properties, 3-D (world.cc:402-487).  [t] is the position on the random tape. *)
+  (** the answer to the requests [ps] at query [q], the features reading the world temperature [wt] *)
+  Definition properties_at (w : world) (q : query) (wt : wtemp) (ps : list prop_req) (t : nat) : res (list F * nat) :=
+    let '(out0, regs) := init_from w (q_g q) (q_depth q) ps [] in
+    if existsb (fun f => ft_cov_err f q
+                         || (ft_covers f q && existsb (fun pe => ft_paint_err f q wt (fst pe)) regs))
+               (w_features w) then Err Throw
+    else Ok (fold_left (feature_apply q wt regs) (w_features w) (out0, t)).
+
+  (** World::properties(position, depth, {temperature}) as the features call it back: no temperature model reads the
+      world temperature itself *)
+  Definition world_temperature (w : world) (q : query) : res F :=
+    rmap (fun r => nth 0 (fst r) f0) (properties_at w q no_wtemp [PTemp] 0).
+
   Definition properties3d (w : world) (pos : vec3) (depth : F) (ps : list prop_req) (t : nat)
     : res (list F * nat) :=
     let q := mk_query w pos depth in
-    let '(out0, regs) := init_from w (q_g q) depth ps [] in
-    if existsb (fun f => ft_cov_err f q
-                         || (ft_covers f q && existsb (fun pe => ft_paint_err f q (fst pe)) regs))
-               (w_features w) then Err Throw
-    else Ok (fold_left (feature_apply q regs) (w_features w) (out0, t)).
+    properties_at w q (fun _ => world_temperature w q) ps t.
 
   (** ** cross section (world.cc:203-222) *)
   Definition cross_dir (cs : vec2 * vec2) : vec2 :=
